@@ -40,7 +40,7 @@ def case(draw, tier):
         schema = draw(tm.schemas(3))
     start = draw(st.sampled_from([0, 0, 3, 70000]))
     horizon = draw(st.integers(3, 40 if big else 16))
-    opts = {"cancel": True, "multi": True, "grow": draw(st.booleans()), "keys": draw(st.sampled_from([4, 8, 12]))}
+    opts = {"cancel": True, "multi": True, "grow": draw(st.booleans()), "keys": draw(st.sampled_from([4, 8, 12])), "whole": True}
     script = draw(tm.history(schema, start, horizon, opts, max_cycles=16 if big else 8))
     return {"schema": schema, "script": script, "start": start, "end": start + horizon}
 
@@ -160,6 +160,15 @@ def norm_delta(d, schema):
         xs = {n: norm_delta(d.get(n), cs) for n, cs in schema[1]}
         return xs if any(v is not None for v in xs.values()) else None
     return d
+
+
+def same_delta(a, b, schema):
+    """capture_delta vs delta_value; a captured delta whose shape does not fit the schema (a modified tree may produce one)
+    is a disagreement, not a harness error."""
+    try:
+        return norm_delta(a, schema) == norm_delta(b, schema)
+    except (TypeError, ValueError, KeyError, AttributeError, IndexError):
+        return False
 
 
 def first_erase_rewrite(script):
@@ -351,7 +360,7 @@ def check(case, ctx) -> Result:
                 res.violations.append(Viol("value_not_prev_plus_delta", f"{what}: at t={t} previous value {prev} + delta {delta} = {calc}, but the value is {cur}", feats))
                 break
             cd = inp.get("cd")
-            if cd is not None and norm_delta(cd, schema) != norm_delta(delta, schema):
+            if cd is not None and not same_delta(cd, delta, schema):
                 res.violations.append(Viol("captured_delta_differs", f"{what}: at t={t} capture_delta gives {cd} but delta_value is {delta}", feats))
                 break
             acc = inp.get("acc")
